@@ -8,13 +8,25 @@ cd /repo || exit 2
 if [ -n "$(git status --porcelain -- src)" ]; then echo "/repo/src is dirty; refusing"; exit 2; fi
 git apply --check "$D/patch.diff" || { echo "patch does not apply"; exit 2; }
 git apply "$D/patch.diff"
-OUT="$D/detection.json"; echo "{" > "$OUT"; first=1
+OUT="$D/detection.json"; TMPR=$(mktemp)
 for c in $CHECKS; do
   log=$(cd /verif && VERIF_DIR=/tmp/seeded-run ./check "$c" quick 2>&1); code=$?
-  v=$(echo "$log" | grep -m1 "^violation:" | cut -c1-400 | sed 's/\\/\\\\/g; s/"/\\"/g')
-  [ $first = 1 ] || echo "," >> "$OUT"; first=0
-  printf '  "%s": {"exit": %d, "first_violation": "%s"}' "$c" "$code" "$v" >> "$OUT"
+  v=$(echo "$log" | grep -m1 "^violation:" | cut -c1-400)
+  printf '%s\t%d\t%s\n' "$c" "$code" "$v" >> "$TMPR"
   echo "$c exit=$code $v"
 done
-echo "" >> "$OUT"; echo "}" >> "$OUT"
+# merge into the existing detection.json (checks not re-run keep their earlier entry)
+python3 - "$OUT" "$TMPR" <<'PY'
+import json, sys, os
+out, tmp = sys.argv[1], sys.argv[2]
+d = {}
+if os.path.exists(out):
+    try: d = json.load(open(out))
+    except Exception: d = {}
+for line in open(tmp, encoding="utf-8", errors="replace"):
+    c, code, v = line.rstrip("\n").split("\t", 2)
+    d[c] = {"exit": int(code), "first_violation": v}
+json.dump(dict(sorted(d.items())), open(out, "w"), indent=1)
+PY
+rm -f "$TMPR"
 git checkout -- . ; git status --porcelain -- src | head -3
